@@ -421,7 +421,7 @@ Definition flags_grow_only_by_auth (k : N * N) (s : session) (m : imsg) (Cred : 
      (exists s0, sv_sessions sv !! tk = Some s0 /\ s_operator s0 = true) \/
      (tk = k /\ exists name pw, In (name, pw) (g_operators (sv_config sv)) /\ Cred name pw)).
 
-Lemma cmd_server_flags k m sv r s Cred :
+Lemma cmd_server_flags k m sv r s :
   sv_sessions sv !! k = Some s ->
   pw (cmd_server k m)
      (fun _ sv' _ =>
@@ -437,12 +437,12 @@ Proof.
     { apply existsb_exists in Hauth. destruct Hauth as (pw0 & Hin & Heq). apply String.eqb_eq in Heq. now exists pw0. }
     apply pw_bind_param. intros p0 Hp0. unfold updSess at 1. apply pw_bind_modS.
     match goal with |- pw ?rest _ ?st _ => set (sv1 := st); set (tail := rest) end.
-    assert (Ht : fl_ok k (g_operators (sv_config sv)) (g_services (sv_config sv)) False tail).
+    assert (Ht : fl_ok k (g_operators (sv_config sv)) (g_services (sv_config sv)) (AOp (g_operators (sv_config sv)) (fun _ _ => False)) tail).
     { unfold tail. repeat (first [ fl_step | assumption | progress unfold sessM, reply_num ]). apply fl_burst_one. }
     eapply pw_mono; [apply Ht; split; reflexivity|]. intros [] sv2 r2 [_ [F1 F2]]. split.
     + intros tk s' Hs' Hf. destruct (F1 _ _ Hs' Hf) as (s1 & Hs1 & Hf1). unfold sv1 in Hs1. cbn [sv_sessions set_sessions] in Hs1.
       rewrite lookup_upd_sess in Hs1. case_bool_decide as E; [right; split; [now symmetry|exact HA]|left; eauto].
-    + intros tk s' Hs' Hf. destruct (F2 _ _ Hs' Hf) as [(s1 & Hs1 & Hf1)|[_ []]]. unfold sv1 in Hs1. cbn [sv_sessions set_sessions] in Hs1.
+    + intros tk s' Hs' Hf. destruct (F2 _ _ Hs' Hf) as [(s1 & Hs1 & Hf1)|[_ (? & ? & _ & [])]]. unfold sv1 in Hs1. cbn [sv_sessions set_sessions] in Hs1.
       rewrite lookup_upd_sess in Hs1. case_bool_decide as E; [|eauto]. destruct E. rewrite Hs in Hs1. cbn in Hs1. injection Hs1 as <-.
       cbn in Hf1. eauto.
   - unfold pw, emit. split; intros tk s' Hs' Hf; eauto.
@@ -526,11 +526,11 @@ Proof.
     + (* SERVER *)
       apply String.eqb_eq in Ename. destruct (s_server s) eqn:Esrv; [cbn in Ename; discriminate|].
       change (EmptyString ++ to_upper (m_cmd m)) with (to_upper (m_cmd m)) in *. rewrite Ename in Hcmd. cbn in Hcmd. injection Hcmd as <- <-.
-      pose proof (cmd_server_flags k m sv1 r1 (acting_view ra s) (line_cred m) Hs1) as H. unfold pw, noenv in *. rewrite Hf in H.
+      pose proof (cmd_server_flags k m sv1 r1 (acting_view ra s) Hs1) as H. unfold pw, noenv in *. rewrite Hf in H.
       destruct H as [G1 G2]. split.
       * intros tk s' Hs' Hfl. destruct (G1 _ _ Hs' Hfl) as [(s1 & Hs1' & Hf1)|[-> HA]].
         -- left. destruct (H01 _ _ Hs1') as (s0 & Hs0 & E1 & _). exists s0. split; [exact Hs0|congruence].
-        -- right. split; [reflexivity|]. split; [exact Ename|]. split; [reflexivity|].
+        -- right. split; [reflexivity|]. split; [exact Ename|]. split; [exact Esrv|].
            destruct HA as (pw0 & Hin & Hp). exists pw0. split.
            ++ destruct HC1 as [_ HC1]. fold svc0. rewrite <- HC1. exact Hin.
            ++ rewrite <- Hp. unfold acting_view. destruct (_ && _); reflexivity.
@@ -543,3 +543,194 @@ Proof.
       { intros En n pw0 H0 H1. left. destruct (s_server s); [cbn in En; discriminate|]. auto. }
       specialize (H HOp sv1 r1 HC1). unfold pw in H. rewrite Hf in H. apply H.
 Qed.
+
+(* ---- one log entry, any kind ------------------------------------------------------------------------------------------ *)
+Definition entry_line (en : entry) : option (N * imsg) :=
+  match en with
+  | EMessage _ _ session _ _ data => match parse_message data with Some m => Some (session, m) | None => None end
+  | EDelete _ _ session q => match parse_message ("QUIT :" ++ q) with Some m => Some (session, m) | None => None end
+  | _ => None
+  end.
+
+Lemma handler_flags e k ra pm sv msgid finish sv' out s :
+  sv_sessions sv !! k = Some s ->
+  (forall x tk s', sv_sessions (finish x) !! tk = Some s' -> sv_sessions x !! tk = Some s') ->
+  run_handler sv msgid (process_message e k ra pm) finish = OOk sv' out ->
+  match pm with
+  | Some m => flags_grow_only_by_auth k s m (line_cred m) sv sv'
+  | None => forall tk s', sv_sessions sv' !! tk = Some s' -> sv_sessions sv !! tk = Some s'
+  end.
+Proof.
+  intros Hs Hfin Hrun. unfold run_handler in Hrun.
+  destruct (process_message e k ra pm sv (RCtx msgid [])) as [[[[] sv2] r2]|?|?] eqn:Hpm; try discriminate.
+  injection Hrun as <- _. destruct pm as [m|].
+  - destruct (line_flags e k ra m sv _ sv2 r2 s Hs Hpm) as [F1 F2]. split; intros tk s' Hs' Hf; apply Hfin in Hs'; eauto.
+  - unfold process_message, bindM, sessM, getS, reply_num, bindM, getS, emit in Hpm. rewrite Hs in Hpm. cbn in Hpm.
+    injection Hpm as <- _. intros tk s' Hs'. now apply Hfin in Hs'.
+Qed.
+
+Lemma run_handler_result sv id act fin sv' :
+  entry_result (run_handler sv id act fin) = Some sv' -> exists out, run_handler sv id act fin = OOk sv' out.
+Proof.
+  unfold run_handler. destruct (act sv (RCtx id [])) as [[[[] sv2] r2]|?|?]; cbn; try discriminate. intros [= <-]. eauto.
+Qed.
+
+Definition entry_flags_ok (en : entry) (sv sv' : server) : Prop :=
+  (forall tk s', sv_sessions sv' !! tk = Some s' -> s_server s' = true ->
+     (exists s0, sv_sessions sv !! tk = Some s0 /\ s_server s0 = true) \/
+     (exists session m s, entry_line en = Some (session, m) /\ tk = (session, 0%N) /\ to_upper (m_cmd m) = "SERVER" /\
+        sv_sessions sv !! tk = Some s /\ s_server s = false /\ services_auth (g_services (sv_config sv)) s)) /\
+  (forall tk s', sv_sessions sv' !! tk = Some s' -> s_operator s' = true ->
+     (exists s0, sv_sessions sv !! tk = Some s0 /\ s_operator s0 = true) \/
+     (exists session m name pw, entry_line en = Some (session, m) /\ tk = (session, 0%N) /\
+        In (name, pw) (g_operators (sv_config sv)) /\ line_cred m name pw)).
+
+Theorem entry_flags e sv en sv' :
+  entry_result (apply_entry e sv en) = Some sv' -> entry_flags_ok en sv sv'.
+Proof.
+  assert (Hsame : forall sv1, (forall tk s', sv_sessions sv1 !! tk = Some s' ->
+                     exists s0, sv_sessions sv !! tk = Some s0 /\ s_server s' = s_server s0 /\ s_operator s' = s_operator s0) ->
+                   Some sv1 = Some sv' -> entry_flags_ok en sv sv').
+  { intros sv1 H [= <-]. split; intros tk s' Hs' Hf; left; destruct (H _ _ Hs') as (s0 & Hs0 & E1 & E2); exists s0; split; auto; congruence. }
+  unfold entry_flags_ok.
+  destruct en as [id un auth|id un session q|id un session cmid ra data|id un session cmid data|id un rev parsed]; cbn [apply_entry entry_line].
+  - (* a new session has neither flag *)
+    unfold create_session, bindM, getS, retM, modS. destruct (_ && _); cbn [entry_result].
+    + apply Hsame. eauto.
+    + intros [= <-]. split; intros tk s' Hs' Hf; cbn [sv_sessions set_sessions] in Hs';
+        (destruct (decide ((id, 0%N) = tk)) as [<-|Hne]; [rewrite lookup_insert in Hs'; injection Hs' as <-; discriminate|]);
+        rewrite lookup_insert_ne in Hs' by exact Hne; left; eauto.
+  - destruct (sv_sessions sv !! (session, 0%N)) as [s|] eqn:Hs; [|cbn; apply Hsame; eauto].
+    intros Hres. apply run_handler_result in Hres. destruct Hres as [out Hrun].
+    pose proof (handler_flags _ _ _ _ _ _ _ _ _ s Hs (fun x tk s' H => mds_sessions (session, 0%N) (set_lastProcessed (id, 0%N) x) _ _ H) Hrun) as H.
+    destruct (parse_message ("QUIT :" ++ q)) as [m|].
+    + destruct H as [F1 F2]. split; intros tk s' Hs' Hf.
+      * destruct (F1 _ _ Hs' Hf) as [Y|(-> & Hc & Hsf & HA)]; [now left|right]. exists session, m, s. repeat split; auto.
+      * destruct (F2 _ _ Hs' Hf) as [Y|(-> & name & pw0 & Hin & Hc)]; [now left|right]. exists session, m, name, pw0. repeat split; auto.
+    + split; intros tk s' Hs' Hf; left; eauto.
+  - destruct (is_retry _ _ sv); [cbn; apply Hsame; eauto|].
+    destruct (update_last_cmid _ _ _ _ sv) as [sv1|] eqn:Hu; [|cbn; apply Hsame; eauto].
+    unfold update_last_cmid in Hu. destruct (sv_sessions sv !! (session, 0%N)) as [s|] eqn:Hs; [|discriminate]. injection Hu as <-.
+    set (s1 := ss_activity _ _ _ s) in *.
+    intros Hres. apply run_handler_result in Hres. destruct Hres as [out Hrun].
+    assert (Hs1 : sv_sessions (set_sessions <[(session, 0%N):=s1]> sv) !! (session, 0%N) = Some s1) by apply lookup_insert.
+    pose proof (handler_flags _ _ _ _ _ _ _ _ _ s1 Hs1 (fun x tk s' H => mds_sessions (session, 0%N) (set_lastProcessed (session, 0%N) x) _ _ H) Hrun) as H.
+    assert (Hback : forall tk s2, sv_sessions (set_sessions <[(session, 0%N):=s1]> sv) !! tk = Some s2 ->
+              exists s0, sv_sessions sv !! tk = Some s0 /\ s_server s2 = s_server s0 /\ s_operator s2 = s_operator s0).
+    { intros tk s2. cbn [sv_sessions set_sessions]. destruct (decide ((session, 0%N) = tk)) as [<-|Hne].
+      - rewrite lookup_insert. intros [= <-]. eauto.
+      - rewrite lookup_insert_ne by exact Hne. eauto. }
+    destruct (parse_message data) as [m|].
+    + destruct H as [F1 F2]. split; intros tk s' Hs' Hf.
+      * destruct (F1 _ _ Hs' Hf) as [(s2 & Hs2 & Hf2)|(-> & Hc & Hsf & HA)].
+        -- left. destruct (Hback _ _ Hs2) as (s0 & Hs0 & E1 & _). exists s0. split; [exact Hs0|congruence].
+        -- right. exists session, m, s. repeat split; auto.
+      * destruct (F2 _ _ Hs' Hf) as [(s2 & Hs2 & Hf2)|(-> & name & pw0 & Hin & Hc)].
+        -- left. destruct (Hback _ _ Hs2) as (s0 & Hs0 & _ & E2). exists s0. split; [exact Hs0|congruence].
+        -- right. exists session, m, name, pw0. repeat split; auto.
+    + split; intros tk s' Hs' Hf; left; apply H in Hs'; destruct (Hback _ _ Hs') as (s0 & Hs0 & E1 & E2); exists s0; split; auto; congruence.
+  - destruct (update_last_cmid _ _ _ _ sv) as [sv1|] eqn:Hu; cbn [entry_result]; [|apply Hsame; eauto].
+    unfold update_last_cmid in Hu. destruct (sv_sessions sv !! (session, 0%N)) as [s|] eqn:Hs; [|discriminate]. injection Hu as <-.
+    apply Hsame. intros tk s2. cbn [sv_sessions set_sessions]. destruct (decide ((session, 0%N) = tk)) as [<-|Hne].
+    + rewrite lookup_insert. intros [= <-]. eauto.
+    + rewrite lookup_insert_ne by exact Hne. eauto.
+  - destruct parsed; cbn [entry_result]; apply Hsame; eauto.
+Qed.
+
+(* ---- services commands are out of reach of a session that is not a services link --------------------------------- *)
+(* a line of a session without s_server runs, if anything, a handler registered under a name without the
+   "server_" prefix; the services handlers (which do not test s_server themselves) are registered under
+   "server_..." only, and the upper-cased command word of a client can never start with a lower-case 's' *)
+Theorem services_commands_need_link e k ra m sv r s :
+  sv_sessions sv !! k = Some s -> s_server s = false ->
+  pw (process_message e k ra (Some m))
+     (fun _ sv' _ =>
+        (exists r1 r2, delete_session k (view_state k ra s sv) r1 = Ok (tt, sv', r2)) \/ sv' = view_state k ra s sv \/
+        (exists name minp (f : handler) r1 r2, In (name, (minp, f)) commands /\ has_prefix "server_" name = false /\
+           f e k m (view_state k ra s sv) r1 = Ok (tt, sv', r2))) sv r.
+Proof.
+  intros Hs Hsrv. eapply pw_mono; [apply (pm_inv e k ra m sv r s Hs Hsrv)|]. intros [] sv' r' [H|[H|(minp & f & r1 & r2 & Hc & Hf)]]; auto.
+  right. right. exists (to_upper (m_cmd m)), minp, f, r1, r2. split; [now apply assoc_str_In|]. split; [apply no_server_prefix|exact Hf].
+Qed.
+
+(* ... and for a services link every command word is looked up under "server_": no client handler, in particular
+   neither OPER nor SERVER, runs for it *)
+Theorem link_runs_services_handlers e k ra m sv r s :
+  sv_sessions sv !! k = Some s -> s_server s = true ->
+  pw (process_message e k ra (Some m))
+     (fun _ sv' _ => pm_outcome2 e k m ("server_" ++ to_upper (m_cmd m)) (view_state k ra s sv) sv') sv r.
+Proof. intros Hs Hsrv. pose proof (pm_inv2 e k ra m sv r s Hs) as H. rewrite Hsrv in H. exact H. Qed.
+
+(* ---- network-wide notices ------------------------------------------------------------------------------------------------ *)
+(* PRIVMSG/NOTICE to a $-target from a session that is not an IRC operator: nothing but a 481 to the sender *)
+Theorem network_notice_needs_oper k m sv r s target p1 rest :
+  sv_sessions sv !! k = Some s -> s_operator s = false ->
+  m_params m = target :: p1 :: rest -> has_prefix "#" target = false -> has_prefix "$" target = true ->
+  exists o, cmd_privmsg k m sv r = Ok (tt, sv, RCtx (r_msgid r) (o :: r_out r)) /\ o_rcpt o = [fst k] /\
+            o_data o = msg_bytes (srvmsg sv "481" [s_nick s; "Permission Denied - You're not an IRC operator"]).
+Proof.
+  intros Hs Hop Hp Hh Hd. unfold cmd_privmsg, bindM, sessM, getS, bindM. rewrite Hs. cbn [retM]. unfold retM. rewrite Hp, Hh, Hd, Hop.
+  unfold reply_num, bindM, getS, emit. eexists. split; [reflexivity|]. split; reflexivity.
+Qed.
+
+(* with operator status the same line reaches every session that has a nickname *)
+Theorem network_notice_by_oper k m sv r s target p1 rest :
+  sv_sessions sv !! k = Some s -> s_operator s = true ->
+  m_params m = target :: p1 :: rest -> has_prefix "#" target = false -> has_prefix "$" target = true ->
+  exists o, cmd_privmsg k m sv r = Ok (tt, sv, RCtx (r_msgid r) (o :: r_out r)) /\ o_rcpt o = set_of_ids (rc_all sv).
+Proof.
+  intros Hs Hop Hp Hh Hd. unfold cmd_privmsg, bindM, sessM, getS, bindM. rewrite Hs. cbn [retM]. unfold retM. rewrite Hp, Hh, Hd, Hop.
+  unfold emit. eexists. split; reflexivity.
+Qed.
+
+(* the hypothesis "not a channel operator" is needed: the same line from Foo, the operator, does change the modes,
+   and a KICK from bar is refused while one from Foo removes bar *)
+Definition ex_op_check : bool :=
+  let c := the_chan ex_sv "#chan" in
+  let by_op := the_result (apply_entry Examples.ex_env ex_sv (EMessage 11 11000 1 14 "" "MODE #chan +i-t")) in
+  let kick_by_bar := the_result (apply_entry Examples.ex_env ex_sv (EMessage 11 11000 4 25 "" "KICK #chan Foo")) in
+  let kick_by_op := the_result (apply_entry Examples.ex_env ex_sv (EMessage 11 11000 1 14 "" "KICK #chan bar")) in
+  is_chanop_b ex_sv (1%N, 0%N) "#chan" &&
+  negb (bool_decide (c_modes (the_chan by_op "#chan") = c_modes c)) &&
+  bool_decide (c_nicks (the_chan kick_by_bar "#chan") = c_nicks c) &&
+  bool_decide (c_nicks (the_chan kick_by_op "#chan") !! "bar" = None).
+Example ex_op_is_entitled : ex_op_check = true.
+Proof. vm_compute. reflexivity. Qed.
+
+(* ---- non-vacuity of the flag theorems: a link authenticates with a configured password, a client becomes operator ---- *)
+Definition ex_cfg : config :=
+  Config 1 600000000000 500000000 0 0 "" "" false [("root", "pw")] ["secret"] ∅ ∅ ∅.
+Definition ex_flag_prefix : list entry :=
+  [ ECreate 1 1000 "0123456789abcdef"; EConfig 2 2000 1 (Some ex_cfg); EMessage 3 3000 1 11 "" "PASS services=secret";
+    ECreate 4 4000 "fedcba9876543210"; EMessage 5 5000 4 21 "" "NICK bar"; EMessage 6 6000 4 22 "" "USER bar 0 * :Bar" ].
+Definition ex_fsv : server := the_state (run Examples.ex_env (init_server "robustirc.net") ex_flag_prefix).
+Definition ex_server_line : entry := EMessage 7 7000 1 12 "" "SERVER services.example 1 :x".
+Definition ex_oper_line : entry := EMessage 7 7000 4 23 "" "OPER root pw".
+Definition ex_oper_bad : entry := EMessage 7 7000 4 23 "" "OPER root guess".
+
+Definition ex_flag_check : bool :=
+  is_some (run Examples.ex_env (init_server "robustirc.net") ex_flag_prefix) &&
+  negb (s_server (the_session ex_fsv (1%N, 0%N))) && negb (s_operator (the_session ex_fsv (4%N, 0%N))) &&
+  is_some (sv_sessions ex_fsv !! (1%N, 0%N)) && is_some (sv_sessions ex_fsv !! (4%N, 0%N)) &&
+  bool_decide (s_pass (the_session ex_fsv (1%N, 0%N)) = "services=secret") &&
+  bool_decide (g_services (sv_config ex_fsv) = ["secret"]) && bool_decide (g_operators (sv_config ex_fsv) = [("root", "pw")]) &&
+  is_ook (apply_entry Examples.ex_env ex_fsv ex_server_line) &&
+  s_server (the_session (the_result (apply_entry Examples.ex_env ex_fsv ex_server_line)) (1%N, 0%N)) &&
+  is_ook (apply_entry Examples.ex_env ex_fsv ex_oper_line) &&
+  s_operator (the_session (the_result (apply_entry Examples.ex_env ex_fsv ex_oper_line)) (4%N, 0%N)) &&
+  is_ook (apply_entry Examples.ex_env ex_fsv ex_oper_bad) &&
+  negb (s_operator (the_session (the_result (apply_entry Examples.ex_env ex_fsv ex_oper_bad)) (4%N, 0%N))).
+
+Example ex_flags_nonvacuous : ex_flag_check = true.
+Proof. vm_compute. reflexivity. Qed.
+
+Print Assumptions ex_frame_nonvacuous.
+Print Assumptions ex_frame_applied.
+Print Assumptions ex_gate_nonvacuous.
+Print Assumptions line_flags.
+Print Assumptions entry_flags.
+Print Assumptions services_commands_need_link.
+Print Assumptions link_runs_services_handlers.
+Print Assumptions network_notice_needs_oper.
+Print Assumptions network_notice_by_oper.
+Print Assumptions ex_flags_nonvacuous.
